@@ -119,6 +119,9 @@ def norm(v):
     return v
 
 
+KF_REUSE = "scheduler-reuse:run-after-aborted-execution-processes-stale-job-reports"
+
+
 class Check(PropertyCheck):
     id = "C01"
     module = "Props.C01"
@@ -229,6 +232,7 @@ class Check(PropertyCheck):
         # the real executors (threads and processes, no controlled schedule): same reference result
         runs += self.real_executor_runs()
         nb += self.thread_sessions()
+        nb += self.reuse_sessions()
         for spec, out, rc in runs:
             self.evaluations += 1
             try:
@@ -289,6 +293,40 @@ class Check(PropertyCheck):
                         break
         finally:
             shutil.rmtree(tmp, ignore_errors=True)
+        return nb
+
+    def reuse_sessions(self):
+        """One Scheduler object used for several runs: the value of each run is the reduction of ITS expression, also
+        after an earlier run on the same object was aborted by a failure while a job was still with its executor."""
+        import logging
+        import time
+        from redun import Scheduler
+        from redun.config import Config
+        from harness.progs import c01_threads as T
+        logging.getLogger("redun").setLevel(logging.ERROR)
+        nb = 0
+        for delay, pause in ((0.3, 0.6), (0.3, 0.0)) if self.tier == "quick" else ((0.3, 0.6), (0.3, 0.0), (0.1, 0.3), (0.5, 0.2)):
+            s = Scheduler(config=Config({"backend": {"db_uri": "sqlite:///:memory:"}}))
+            s.load()
+            s.logger.disabled = True
+            history = []
+            try:
+                s.run(T.aborted(f"boom{delay}", delay))
+                history.append("run 1 returned")
+            except Exception as e:  # noqa: BLE001
+                history.append(f"run 1 raised {type(e).__name__}")
+            time.sleep(pause)
+            try:
+                got = s.run(T.double(21))
+            except Exception as e:  # noqa: BLE001
+                got = ("error", type(e).__name__, str(e)[:120])
+            self.evaluations += 1
+            time.sleep(max(0.0, delay - pause) + 0.1)
+            if got != 42:
+                nb += 1
+                self.findings.append(Finding(KF_REUSE, f"second run on the same Scheduler after an aborted one ({history[0]}; the "
+                                             f"sibling job finished {'before' if pause > delay else 'during'} the second run) gave "
+                                             f"{got!r} instead of 42", {"reuse": [delay, pause]}))
         return nb
 
     def real_executor_runs(self):
